@@ -5,7 +5,7 @@
 Require Extraction.
 Require Import ExtrOcamlBasic.
 From Coq Require Import List NArith ZArith.
-From SDB Require Import Base.Bytes Base.Assoc Params Model.Codec Model.Lock Model.Page Model.Pool Model.SqlRef Model.Catalog Model.Query Model.Wal Model.LogCodec Model.WalTrace Model.Sched Model.ReqMgr Model.Engine Model.IndexWrap Model.Trace Model.Join Model.SkipList.
+From SDB Require Import Base.Bytes Base.Assoc Params Model.Codec Model.Lock Model.Page Model.Pool Model.SqlRef Model.Catalog Model.Query Model.Wal Model.LogCodec Model.WalTrace Model.Sched Model.ReqMgr Model.Engine Model.IndexWrap Model.Trace Model.Join Model.SkipList Model.Startup Model.HashTable.
 
 Extraction Blacklist List String Int.
 
@@ -47,4 +47,8 @@ Extraction "sdbmodel.ml"
   join_candidates run_join run_join_select scan_candidates inner jcols jshape_of leaf_order algs has_null_key has_neg_zero_key join_hyps_ok
   (* M17s block skip list (C17) *)
   ix_key sl_empty sl_insert sl_remove sl_get sl_to_list sl_range sl_checkb om_find
+  (* M6s start-up sequence / LSN floor (C20) *)
+  cfg_now st_mkcfg st_nopage st_init st_step st_run st_next_lsn st_is_normal st_phase_no st_disk_lsn st_log_lsns st_lost_records st_floor_broken st_feed st_feed_all
+  (* M17h linear-probe hash table (C17) *)
+  ht_empty ht_engine_empty ht_insert ht_ins_err ht_ins_stored ht_remove ht_get ht_live_count ht_occ_count ht_home ht_engine_blocks ht_block_array_size
   N.of_nat N.to_nat Z.of_N Z.to_N Z.compare N.compare.
